@@ -232,7 +232,7 @@ func (m *mon) c11() {
 
 // C13 — distributed consumers: each item executed by exactly one; all drained; Submitted = notifications
 func (m *mon) c13() {
-	if !m.props["C13"] {
+	if !m.props["C13"] && !(m.props["C17"] && m.e.family == "dist") {
 		return
 	}
 	for _, s := range m.e.subs {
@@ -249,6 +249,7 @@ func (m *mon) c13() {
 		for _, n := range m.e.notes {
 			if strings.HasPrefix(n, "SUBMITTED:") {
 				m.add("C13", "submitted", "%s", n)
+				m.add("C17", "submitted-inexact", "%s", n)
 			}
 		}
 	}
@@ -318,7 +319,9 @@ func init() {
 			// a foreign producer stores entries the library cannot decode, among valid ones
 			jn.goClient("foreign", func() {
 				vt.Yield()
-				bad := [][]byte{[]byte(`{"id":"x","status":"Bogus","data":1}`), []byte(`not json`), []byte(`{"id":7}`), []byte(`{"id":"y","status":"Queued","data":"str"}`)}
+				bad := [][]byte{[]byte(`{"id":"x","status":"Bogus","data":1}`), []byte(`not json`), []byte(`{"id":7}`), []byte(`{"id":"y","status":"Queued","data":"str"}`),
+					// valid JSON, but not an entry this library wrote: no status
+					[]byte(`{}`), []byte(`null`), []byte(`{"id":"z","data":77}`), []byte(`{"kind":"email","to":"a@b"}`)}
 				ad.inject(bad[r.Intn(len(bad))], r.Intn(3), -1)
 				e.params["bad"]++
 				e.w.notifyToPullNextJobs()
@@ -422,6 +425,18 @@ func init() {
 		if bindFirst {
 			bindAll()
 		}
+		if r.Intn(3) == 0 {
+			// the backend refuses an acknowledgement now and then: the consumer reports it and goes on
+			ad.failAck = e.p("failAck", 3)
+		}
+		// a consumer that is paused (or stopped) while items are announced still counts them, and
+		// works them off once it is resumed / restarted
+		halt := ""
+		if bindFirst && r.Intn(3) == 0 {
+			halt = []string{"PauseAndWait", "Pause", "Stop"}[r.Intn(3)]
+			e.p("halted", 1)
+			e.lifecycle(halt, 0)
+		}
 		var jn joiner
 		for p := 0; p < 1+r.Intn(2); p++ {
 			n := 1 + r.Intn(4)
@@ -433,6 +448,18 @@ func init() {
 		}
 		if !bindFirst {
 			jn.goClient("binder", func() { vt.Yield(); bindAll() })
+		}
+		if halt != "" {
+			jn.goClient("resumer", func() {
+				for k := r.Intn(6); k > 0; k-- {
+					vt.Yield()
+				}
+				if halt == "Stop" {
+					e.lifecycle("Restart", 0)
+				} else {
+					e.lifecycle("Resume", 0)
+				}
+			})
 		}
 		if r.Intn(3) == 0 {
 			jn.goClient("foreign", func() {
